@@ -36,7 +36,7 @@ def run_tlc(module, cfg=None, workdir=None, env=None, workers=1, timeout=900, ex
         jopts = []
         if depth_first:
             jopts.append("-Dtlc2.tool.queue.IStateQueue=StateDeque")
-        cmd = ["java", f"-Xmx{heap}", "-XX:+UseParallelGC", f"-XX:ActiveProcessorCount={max(2, workers)}", "-XX:TieredStopAtLevel=1" if workers == 1 else "-XX:+TieredCompilation", *jopts, "-cp", f"{JAR}:{DEPS}", "tlc2.TLC",
+        cmd = ["java", f"-Xmx{heap}", "-Xss48m", "-XX:+UseParallelGC", f"-XX:ActiveProcessorCount={max(2, workers)}", "-XX:TieredStopAtLevel=1" if workers == 1 else "-XX:+TieredCompilation", *jopts, "-cp", f"{JAR}:{DEPS}", "tlc2.TLC",
                "-workers", str(workers), "-metadir", meta, "-noGenerateSpecTE", "-nowarning"]
         if cfg:
             cmd += ["-config", cfg]
